@@ -32,6 +32,19 @@ impl Topology {
         Some(dindex)
     }
 
+    /// Edge length of the smallest hypercube with ndim dimensions that contains
+    /// ntotal elements: the least e with e^ndim >= ntotal, in integer arithmetic.
+    fn edge_length(ntotal: usize, ndim: usize) -> usize {
+        // 2^64 exceeds every usize: with more than 64 dimensions an edge of 2 always suffices
+        let d = ndim.min(64) as u32;
+        let mut e: usize = 1;
+        // an overflowing power is larger than ntotal
+        while e.checked_pow(d).map_or(false, |p| p < ntotal) {
+            e += 1;
+        }
+        e
+    }
+
     /// Calculates the indices of the neighbors for a vector of the the total
     /// size ntotal divided in ndim dimensions. A neighbor's euclidean distance to
     /// the given index is smaller equal to the given radius. The distance is calculated
@@ -48,7 +61,7 @@ impl Topology {
         if *radius < 0.0 || *ndim < 1 || *ntotal < 1 || *index > *ntotal {
             return None;
         }
-        let nedge = f32::ceil((*ntotal as f32).powf(1.0 / *ndim as f32)) as usize;
+        let nedge = Topology::edge_length(*ntotal, *ndim);
         if let Some(dindex) = Topology::decompose_index(index, &nedge, ndim) {
             let mut neighbors = vec![];
             for i in 0..*ntotal {
